@@ -29,6 +29,7 @@ Absent == -1           \* the Ref property is not present on the instance
 NoDom  == 0
 NoUid  == 0            \* no "UniqueId" property
 NoLabel == 0
+Rootless == -1        \* root of a DOM made by WeakDom::default(): the DOM exists, it has no root instance
 
 VARIABLES owner,    \* [Refs -> Doms \cup {NoDom}]  which DOM's get_by_ref answers
           parent,   \* [Refs -> Refs \cup {Null}]
@@ -37,7 +38,7 @@ VARIABLES owner,    \* [Refs -> Doms \cup {NoDom}]  which DOM's get_by_ref answe
           refp,     \* [Refs -> [Slots -> Refs \cup {Null, Absent}]]
           uid,      \* [Refs -> Int]                UniqueId property (token), NoUid if none
           uidset,   \* [Doms -> SUBSET Int]         WeakDom.unique_ids
-          root,     \* [Doms -> Refs \cup {Null}]   Null: DOM not created yet
+          root,     \* [Doms -> Refs \cup {Null, Rootless}]   Null: DOM not created yet
           nextRef,  \* next unused referent
           seen      \* every UniqueId token that ever appeared (for freshness)
 
@@ -174,6 +175,14 @@ NewS(d, b) ==
 
 NewU(d, b) == InsertU(d, Null, b)
 
+\* WeakDom::default(): an empty DOM without a root.  root_ref() answers Ref::none() for ever; everything put into it
+\* later (insert under Ref::none(), clone_into_external, transfer under one of those) is an ordinary orphan tree,
+\* and every rule that speaks about "the destination DOM" applies to it as to any other
+DefaultS(d) ==
+    /\ root[d] = Null
+    /\ root' = [root EXCEPT ![d] = Rootless]
+    /\ UNCHANGED <<owner, parent, kids, label, refp, nextRef>>
+
 -----------------------------------------------------------------------------
 (* destroy                                                                   *)
 
@@ -301,7 +310,7 @@ CloneU(d, rs, e) ==
 (* UniqueId properties (from_raw panics on duplicates, which UidDistinct excludes).                *)
 
 RawTripS(d) ==
-    /\ root[d] # Null
+    /\ root[d] \in Refs                \* from_raw requires the root to be in the instance map
     /\ UNCHANGED <<owner, parent, kids, label, refp, root, nextRef>>
 
 RawTripU(d) ==
@@ -351,7 +360,7 @@ TypeOK ==
     /\ parent \in [Refs -> Refs \cup {Null}]
     /\ \A r \in Refs : SeqSet(kids[r]) \subseteq Refs
     /\ \A r \in Refs : \A s \in Slots : refp[r][s] \in Refs \cup {Null, Absent}
-    /\ root   \in [Doms -> Refs \cup {Null}]
+    /\ root   \in [Doms -> Refs \cup {Null, Rootless}]
     /\ nextRef \in 1..(MaxRef + 1)
 
 \* C09: every DOM is a well-formed forest.  Stated over explicit functions so that the trace
@@ -367,7 +376,7 @@ WF(o, pf, kf, rt) ==
     /\ \A r \in live : pf[r] # Null =>                                \* ParentLinks
            pf[r] \in Refs /\ o[pf[r]] = o[r] /\ Count(kf[pf[r]], r) = 1
     /\ \A r \in live : r \notin AncOf(pf, r, MaxRef + 1)              \* NoCycle
-    /\ \A d \in Doms : rt[d] # Null =>                                \* RootOK
+    /\ \A d \in Doms : rt[d] \notin {Null, Rootless} =>                  \* RootOK
            rt[d] \in Refs /\ o[rt[d]] = d /\ pf[rt[d]] = Null
 
 ChildLinks  == \A r \in Live : \A i \in 1..Len(kids[r]) :
@@ -375,7 +384,7 @@ ChildLinks  == \A r \in Live : \A i \in 1..Len(kids[r]) :
 ParentLinks == \A r \in Live : parent[r] # Null =>
                   owner[parent[r]] = owner[r] /\ Count(kids[parent[r]], r) = 1
 NoCycle     == \A r \in Live : r \notin Anc(r)
-RootOK      == \A d \in Doms : root[d] # Null => owner[root[d]] = d /\ parent[root[d]] = Null
+RootOK      == \A d \in Doms : root[d] \in Refs => owner[root[d]] = d /\ parent[root[d]] = Null
 DeadClean   == \A r \in Refs : owner[r] = NoDom =>
                   parent[r] = Null /\ kids[r] = <<>> /\ uid[r] = NoUid /\ refp[r] = AbsentAll
 Unborn      == \A r \in Refs : r >= nextRef => owner[r] = NoDom
